@@ -163,6 +163,7 @@ class Builder:
         self.max_size = max_size
         self.allow_empty = False
         self.npint_args = False
+        self.allow_nonfinite = False
 
     # -- helpers
     def name(self, p="v"):
@@ -179,7 +180,7 @@ class Builder:
         if isinstance(v, np.ndarray) and v.dtype.kind == "f":
             if v.size > self.max_size or (v.size == 0 and not self.allow_empty):
                 return False
-            if v.size and not (np.all(np.isfinite(v)) and np.all(np.abs(v) < 1e4)):
+            if v.size and not self.allow_nonfinite and not (np.all(np.isfinite(v)) and np.all(np.abs(v) < 1e4)):
                 return False
         return True
 
